@@ -147,6 +147,14 @@ pub fn run(cx: &Ctx, space: &Space, cfg: &RefCfg) -> Tally {
                     if nontrivial {
                         t.nontrivial += 1;
                     }
+                    // The instruction fuel is the harness's own horizon, not an answer of the
+                    // engine: a run that exhausts it is a C01-type divergence only if the
+                    // reference exploration was small (the run "ran away"); exponential patterns
+                    // on long texts legitimately need more than the horizon and are skipped.
+                    if matches!(&got, Out::Err(e) if e == "FuelExhausted") && info.steps > 2_000 {
+                        t.count("skipped_engine_fuel_horizon(reference exploration not small)", 1);
+                        continue;
+                    }
                     let agree = |got: &Out| -> bool { agrees(cfg, &expected, got) };
                     let mut ok = agree(&got);
                     let mut what = "captures_from_pos";
